@@ -325,7 +325,12 @@ def make_function(
     if ret_ann is not None:
         ns["__r"] = ret_ann
         ret = " -> __r"
-    if is_async and is_gen:
+    if is_async == "coro" and not is_gen:
+        # a plain `def` that RETURNS a coroutine (an async function behind a non-async decorator or wrapper): not a
+        # coroutine function for inspect, yet its body suspends like one when the async runner awaits the result
+        body = f"    return __rt.acall({fid!r}, {kw})\n"
+        is_async = False
+    elif is_async and is_gen:
         body = f"    async for __x in __rt.agcall({fid!r}, {kw}):\n        yield __x\n"
     elif is_async:
         body = f"    return await __rt.acall({fid!r}, {kw})\n"
